@@ -43,6 +43,7 @@ def run(repo, chk):
     chk.rule("R04.2", "the stored value is the interact result: every overridable interaction is consumed by the store / return / yield it belongs to; all binding interactions are overridable", 3)
     chk.rule("R04.3", "closure variables: standalone interaction with overridable=False; interact raises OverrideException before log/trigger/return when an intercept answers", 2)
     chk.rule("R04.4", "declining leaves the value untouched: reaching definitions of the returned value = {argument, intercept result under `is not ABSENT`}; intercept keeps the last non-ABSENT answer", 3)
+    chk.rule("R04.6", "override plumbing: tweak/rewrite build one Immediate(intercept=...) per selector with the value bound at construction (no late-binding closure over the loop variable); an overridable probe answers with the value set by override()/koverride() during the push, else ABSENT", 5)
     chk.rule("R04.5", "activation order is preserved up to the point of choice: collections are only extended at the end, in activation order", 3)
 
     cls, H, stats = Q.templates(repo, chk.tier)
@@ -226,3 +227,50 @@ def run(repo, chk):
     en = repo.func("overlay.BaseOverlay.__enter__")
     chk.ob("R04.5", "overlay.BaseOverlay.__enter__:handlers-in-order", "handlers = [(h.selector, h) for h in self.handlers]" in norm(en.node), en.where,
            "an overlay contributes its handlers in the order they were added")
+
+
+    # ---------------- R04.6
+    def late_bound(fn_node):
+        """Closures created inside a loop / comprehension that read the loop variable freely (they would all see its last value)."""
+        out = []
+        for comp in ast.walk(fn_node):
+            gens = getattr(comp, "generators", None)
+            loopvars = set()
+            if gens:
+                for g_ in gens:
+                    loopvars |= {n.id for n in ast.walk(g_.target) if isinstance(n, ast.Name)}
+                scope = [comp.elt] if hasattr(comp, "elt") else [comp.key, comp.value]
+            elif isinstance(comp, ast.For):
+                loopvars = {n.id for n in ast.walk(comp.target) if isinstance(n, ast.Name)}
+                scope = comp.body
+            else:
+                continue
+            for sc in scope:
+                for lam in ast.walk(sc):
+                    if isinstance(lam, (ast.Lambda, ast.FunctionDef)):
+                        params = {a.arg for a in lam.args.args + lam.args.kwonlyargs}
+                        body = lam.body if isinstance(lam.body, list) else [lam.body]
+                        free = {n.id for b in body for n in ast.walk(b) if isinstance(n, ast.Name) and isinstance(n.ctx, ast.Load)} - params
+                        if free & loopvars:
+                            out.append(f"{norm(lam)[:60]} reads {sorted(free & loopvars)} late")
+        return out
+    for m in ("tweak", "rewrite"):
+        fi = repo.func(f"overlay.Overlay.{m}")
+        lb = late_bound(fi.node)
+        calls = [c for c in ast.walk(fi.node) if isinstance(c, ast.Call) and is_name(c.func, "Immediate")]
+        ok = not lb and len(calls) == 1 and any(k.arg == "intercept" for k in calls[0].keywords) and is_name(calls[0].args[0], "sel")
+        chk.ob("R04.6", f"overlay.Overlay.{m}:one-intercept-per-selector-bound-at-construction", ok, fi.where,
+               f"{m}() builds Immediate(selector, intercept=...) for every entry, each closure holding its own value" + (f" -- {lb}" if lb else ""))
+    oe = repo.func("probe.OverridableProbe._emit")
+    body = [n for n in oe.node.body if not (isinstance(n, ast.Expr) and isinstance(n.value, ast.Constant))]
+    ok = len(body) == 3 and norm(body[0]) == "self._value = ABSENT" and "super()._emit(" in norm(body[1]) and norm(body[2]) == "return self._value"
+    chk.ob("R04.6", "probe.OverridableProbe._emit:answers-value-set-during-push", ok, oe.where,
+           "the emitter resets the slot to ABSENT, pushes the event (subscribers run synchronously) and answers with whatever override() stored, ABSENT meaning 'decline'")
+    for m, expr in (("override", "setter(data)"), ("koverride", "setter(**data)")):
+        fi = repo.func(f"probe.OverridableProbe.{m}")
+        ok = any(isinstance(n, ast.Assign) and norm(n.targets[0]) == "self._root._value" and norm(n.value) == expr for n in ast.walk(fi.node)) and \
+            "return self.subscribe(_override)" in norm(fi.node)
+        chk.ob("R04.6", f"probe.OverridableProbe.{m}:stores-into-root-slot", ok, fi.where, f"{m}() subscribes a function that stores {expr} into the root probe's slot")
+    om = repo.func("probe.OverridableProbe._make_rule")
+    chk.ob("R04.6", "probe.OverridableProbe._make_rule:emitter-is-the-intercept", "Immediate(sel, intercept=self._make_emitter(sel), pass_info=True)" in norm(om.node), om.where,
+           "the probe's emitter is installed as the intercept of an Immediate accumulator")
